@@ -149,6 +149,7 @@ type fsOut struct {
 	Bln    interface{}   `json:"bln,omitempty"`
 	Zones  []fsZone      `json:"zones"`
 	Saved  int           `json:"saved"`
+	Calls  [][]string    `json:"calls"`
 }
 
 type fakeStub struct {
@@ -600,6 +601,7 @@ func runScript(t *testing.T, sc *fsScript, w *bufio.Writer) {
 			inst = ninst
 			out.Reply.Class = "ok"
 		} else {
+			cache.VerifTraceEnable(true)
 			func() {
 				defer func() {
 					if r := recover(); r != nil { // panic outside the handler (harness lookup etc.)
@@ -609,6 +611,8 @@ func runScript(t *testing.T, sc *fsScript, w *bufio.Writer) {
 				}()
 				inst.exec(ev, out)
 			}()
+			out.Calls = cache.VerifTakeCalls()
+			cache.VerifTraceEnable(false)
 		}
 		func() {
 			defer func() {
